@@ -175,17 +175,22 @@ def run(tier, seed, replay):
     for i in range(0, len(uniq), max(1, len(uniq) // 5)):
         ln, r = uniq[i]
         v.sample({"obs": r, "in": detail.get(ln, {}).get("in", "")[:200]}, limit=5)
-    nviol = {}
+    nviol, drift = {}, {}
     for f in fails:
         ln, e = uniq[f["line"] - 1]
         d = detail.get(ln, {})
         if f["monfail"] == "drift":
-            v.drift.append("outcome differs from the code-shaped expectation of CodecDefs: %s case=%s outcome=%s" % (
-                e["k"], json.dumps(e.get("c"), sort_keys=True), json.dumps(e.get("o", e), sort_keys=True)[:300]))
+            key = (e["k"], json.dumps(e.get("o", e), sort_keys=True)[:300])
+            g = drift.setdefault(key, [0, e.get("c")])
+            g[0] += 1
             continue
         for sig in sigs_of(e, f["monfail"]):
             nviol[sig] = nviol.get(sig, 0) + 1
             v.violation(sig, "real codec outcome violates %s (input %s -> %s)" % (f["monfail"], d.get("in", "")[:300], d.get("out", "")[:300]),
                         {"k": e["k"], "c": e.get("c"), "o": e.get("o", e), "in": d.get("in"), "out": d.get("out"), "inv": f["monfail"]})
+    for (k, o), (n, c) in sorted(drift.items(), key=lambda kv: -kv[1][0]):
+        v.drift.append("%d observation(s) of table %s differ from the code-shaped expectation of CodecDefs: outcome=%s e.g. case=%s" % (
+            n, k, o, json.dumps(c, sort_keys=True)))
+    v.cov["states"] = v.cov["transitions"] = ncases  # one "state" per abstract case of the decision tables
     v.cov["failing_observations_by_signature"] = dict(sorted(nviol.items(), key=lambda kv: -kv[1])[:40])
     return v.finish()
